@@ -324,3 +324,16 @@ Proof.
   apply orb_true_iff in H. destruct H as [H|H]; apply hasPrefixb_spec in H; destruct H as [r' Hr'];
     [left|right]; exists (r' ++ r); rewrite Hr, Hr', app_assoc; reflexivity.
 Qed.
+
+(* a fragment accepted by frag_ok is, for every instance, a legal continuation of a JSON text in
+   at least one of the listed contexts *)
+Theorem frag_ok_sound_proof : forall t,
+  frag_ok t = true ->
+  exists q q', In q frag_starts /\
+    forall v, inst t v -> exists qc', jrun v q = Some qc' /\ sim q' qc'.
+Proof.
+  intros t H. unfold frag_ok in H. apply existsb_exists in H. destruct H as (q & Hin & Hq).
+  destruct (trun t q) as [q'|] eqn:E; [|discriminate].
+  exists q, q'. split; [exact Hin|]. intros v Hi.
+  exact (trun_sound t v Hi _ _ _ E (sim_refl _)).
+Qed.
